@@ -21,6 +21,7 @@ class LoopSpec(object):
         self.unroll = None
         self.body_ensures = []   # per-iteration postconditions (may use head(x) and _yielded)
         self.body_raises = []    # (class expr, when expr over the iteration-head state)
+        self.split_op = False    # raw_iter loops: case split on the opcode byte of the iteration
 
 
 class Interp3(Interp2):
@@ -376,9 +377,9 @@ class Interp3(Interp2):
             return rawiter_loop(self, n, spec, it.payload)
         if isinstance(it, GenVal) and it.kind == 'genfn':
             it = self.run_generator(it)
-        items = None
-        if spec is None or spec.unroll is not None:
-            items = self.try_iter_concrete(it)
+        items = self.try_iter_concrete(it)
+        if items is not None and spec is not None and spec.unroll is None and len(items) > 64:
+            items = None        # long concrete iterables: use the invariant
         if items is not None:
             if len(items) > UNROLL_LIMIT and spec is None:
                 raise OutOfReach('for loop over %d items without invariant' % len(items))
